@@ -265,8 +265,8 @@ Qed.
 Lemma set_ready_length s h r : length (chans (fst (set_ready s h r))) = length (chans s).
 Proof. unfold set_ready. destruct (rstate_eqb _ _); cbn [fst]; [reflexivity|apply setc_length]. Qed.
 
-Lemma close_body_good s h : (h < length (chans s))%nat -> rank (ch_state (getc s h)) <= 2 ->
-  good s (snd (close_body s h)) (fst (close_body s h)).
+Lemma close_body_good s h hs : (h < length (chans s))%nat -> rank (ch_state (getc s h)) <= 2 ->
+  good s (snd (close_body s h hs)) (fst (close_body s h hs)).
 Proof.
   intros Hh Hr. unfold close_body.
   rewrite (pair_eta (set_ready s h Closing)).
@@ -274,7 +274,7 @@ Proof.
     by (apply set_ready_good; [exact Hh|exact Hr]).
   pose proof (set_ready_length s h Closing) as L1.
   set (s1 := fst (set_ready s h Closing)) in *. set (e1 := snd (set_ready s h Closing)) in *.
-  destruct (established s1) eqn:Ees; destruct (ch_id (getc s h)) as [i|] eqn:Eid.
+  destruct (established s1 || hs) eqn:Ees; destruct (ch_id (getc s h)) as [i|] eqn:Eid.
   - cbn [fst snd]. refine (good_trans s e1 s1 _ _ G1 _).
     apply good_frame; auto; try (intros [A B]; split; assumption). destruct (Nat.eqb _ 1); silent_tac.
   - rewrite (pair_eta (close_local s1 h None)). cbn [fst snd].
@@ -285,7 +285,7 @@ Proof.
     refine (good_trans s e1 s1 _ _ G1 _). apply close_local_good. lia.
 Qed.
 
-Lemma chan_close_good s h : (h < length (chans s))%nat -> good s (snd (chan_close s h)) (fst (chan_close s h)).
+Lemma chan_close_good s h hs : (h < length (chans s))%nat -> good s (snd (chan_close s h hs)) (fst (chan_close s h hs)).
 Proof.
   intros Hh. unfold chan_close.
   destruct (ch_state (getc s h)) eqn:Est; try apply good_refl; apply close_body_good; auto; rewrite Est; cbn; lia.
@@ -365,7 +365,7 @@ Qed.
 Lemma reset_streams_good : forall strs s, good s (snd (reset_streams s strs)) (fst (reset_streams s strs)).
 Proof.
   induction strs as [|i strs IH]; intros s; cbn [reset_streams]; [apply good_refl|].
-  set (p1 := match tget (table s) i with Some h => chan_close s h | None => (s, []) end).
+  set (p1 := match tget (table s) i with Some h => chan_close s h false | None => (s, []) end).
   assert (G1 : good s (snd p1) (fst p1)).
   { unfold p1. destruct (tget (table s) i) as [h|] eqn:E; [|apply good_refl].
     intros W. assert (Hh : (h < length (chans s))%nat) by (destruct W as [A _]; eapply tget_handles; eauto).
@@ -430,10 +430,11 @@ Proof.
   assert (G0 : good s [] s0) by (apply good_frame; auto; try (intros [A B]; split; assumption); try apply silent_nil).
   assert (G1 : good s0 (snd (open_negotiated s0 (table s0))) (fst (open_negotiated s0 (table s0)))).
   { apply open_negotiated_good. destruct W as [A _]. exact A. }
-  change (snd (open_negotiated s0 (table s0)) ++ [EvSchedFlush])
-    with ([] ++ snd (open_negotiated s0 (table s0)) ++ [EvSchedFlush]).
+  set (tl := [EvSchedFlush] ++ match rq_queue (fst (open_negotiated s0 (table s0))) with [] => [] | _ => [EvSchedReconfig] end).
+  change (snd (open_negotiated s0 (table s0)) ++ tl)
+    with ([] ++ snd (open_negotiated s0 (table s0)) ++ tl).
   refine (good_trans s [] s0 _ _ G0 (good_trans _ _ _ _ _ G1 _) W).
-  apply good_frame; auto. silent_tac.
+  apply good_frame; auto. unfold tl. apply silent_app; [silent_tac|destruct (rq_queue (fst _)); silent_tac].
 Qed.
 
 Lemma close_queued_good : forall q s,
